@@ -214,3 +214,95 @@ Proof.
     + apply (header_items_pos (c0 :: hs)). unfold header_items. rewrite A. reflexivity.
   - unfold header_items in E. destruct (all_some _); [discriminate|reflexivity].
 Qed.
+
+(* ---- the relaxed predicate: any supported item of highest q is acceptable; without ties that is the specification ---- *)
+Lemma q_geb_refl a : q_geb a a = true.
+Proof. unfold q_geb. apply N.leb_refl. Qed.
+
+(* bestP returns an acceptable element whose q dominates every acceptable element *)
+Lemma bestP_max P l x : all_qpos l -> bestP P l = Some x ->
+  In x l /\ P x = true /\ forall y, In y l -> P y = true -> q_geb (snd x) (snd y) = true.
+Proof.
+  revert x. induction l as [|z l IH]; intros x Q; cbn [bestP]; [discriminate|].
+  assert (Ql: all_qpos l) by (intros y Hy; apply Q; right; exact Hy).
+  assert (Qz: qpos (snd z)) by (apply Q; left; reflexivity).
+  destruct (P z) eqn:Pz.
+  - destruct (bestP P l) as [b|] eqn:B.
+    + destruct (IH b Ql eq_refl) as (Hb & Pb & Mb).
+      destruct (q_geb (snd z) (snd b)) eqn:E; intro H; inversion H; subst x; clear H.
+      * split; [left; reflexivity|]. split; [exact Pz|]. intros y [<-|Hy] Py; [apply q_geb_refl|].
+        apply (q_geb_trans (snd z) (snd b) (snd y)); auto.
+      * split; [right; exact Hb|]. split; [exact Pb|]. intros y [<-|Hy] Py; [|auto].
+        destruct (q_geb_total (snd b) (snd z)) as [G|G]; [exact G|congruence].
+    + intro H; inversion H; subst x; clear H.
+      split; [left; reflexivity|]. split; [exact Pz|]. intros y [<-|Hy] Py; [apply q_geb_refl|].
+      exfalso. clear IH Q Ql. induction l as [|w l IHl]; [destruct Hy|]. cbn [bestP] in B.
+      destruct Hy as [<-|Hy].
+      * rewrite Py in B. destruct (bestP P l) as [b|]; [destruct (q_geb _ _)|]; discriminate.
+      * destruct (P w); [destruct (bestP P l) as [b|]; [destruct (q_geb _ _)|]; discriminate|]. auto.
+  - intro H. destruct (IH x Ql H) as (Hx & Px & Mx). split; [right; exact Hx|]. split; [exact Px|].
+    intros y [<-|Hy] Py; [congruence|auto].
+Qed.
+Lemma bestP_none P l : bestP P l = None -> filter P l = [].
+Proof.
+  induction l as [|z l IH]; cbn [bestP filter]; auto. destruct (P z); auto.
+  destruct (bestP P l) as [b|]; [destruct (q_geb _ _)|]; discriminate.
+Qed.
+Lemma best_bestP l : best supported_content_types content_type_synonyms l = bestP item_supported l.
+Proof. induction l as [|x l IH]; cbn [best bestP]; auto. rewrite IH. reflexivity. Qed.
+
+(* the specification's answer, unfolded: the best supported item, which is a top item of the supported ones *)
+Lemma best_is_top items x : all_qpos items -> best supported_content_types content_type_synonyms items = Some x ->
+  In x (supported_items items) /\ is_top (supported_items items) x = true.
+Proof.
+  intros Q B. rewrite best_bestP in B. destruct (bestP_max _ _ _ Q B) as (Hx & Px & Mx).
+  unfold supported_items, is_top. split; [apply filter_In; auto|].
+  apply forallb_forall. intros y Hy. apply filter_In in Hy as [Hy Py]. auto.
+Qed.
+
+Theorem negotiate_acceptable_spec : forall h, negotiate_acceptable h (spec_negotiate h) = true.
+Proof.
+  intros [[|c0 hs]|]; cbn [negotiate_acceptable spec_negotiate]; try apply str_eqb_refl.
+  destruct (header_items (c0 :: hs)) as [items|] eqn:E; [|reflexivity].
+  pose proof (header_items_pos _ _ E) as Q.
+  destruct (best supported_content_types content_type_synonyms items) as [x|] eqn:B.
+  - destruct (best_is_top _ _ Q B) as (Hx & Tx).
+    remember (supported_items items) as sp eqn:S. destruct sp as [|s0 sup]; [destruct Hx|]. cbv iota.
+    apply existsb_exists. exists x. split; [exact Hx|]. rewrite str_eqb_refl, Tx. reflexivity.
+  - rewrite best_bestP in B. apply bestP_none in B. unfold supported_items. rewrite B. apply str_eqb_refl.
+Qed.
+
+(* without ties the top item is unique *)
+Lemma no_ties_unique l a b : no_ties l = true -> In a l -> In b l ->
+  q_geb (snd a) (snd b) = true -> q_geb (snd b) (snd a) = true -> a = b.
+Proof.
+  induction l as [|x l IH]; cbn [no_ties]; intros N Ha Hb Gab Gba; [destruct Ha|].
+  apply andb_true_iff in N as [Nx Nl]. rewrite forallb_forall in Nx.
+  destruct Ha as [<-|Ha], Hb as [<-|Hb]; auto.
+  - specialize (Nx _ Hb). rewrite Gab, Gba in Nx. discriminate.
+  - specialize (Nx _ Ha). rewrite Gab, Gba in Nx. discriminate.
+Qed.
+
+(* the relaxation only concerns ties: when no two supported items of the header have equal q, the only acceptable answer
+   is the specification's (= the implementation's, negotiate_spec) *)
+Theorem negotiate_acceptable_unique : forall h a,
+  header_no_ties h = true -> negotiate_acceptable h a = true -> a = spec_negotiate h.
+Proof.
+  intros [[|c0 hs]|] a; cbn [negotiate_acceptable spec_negotiate header_no_ties].
+  - intros _ H. destruct a as [x|]; [|discriminate]. apply str_eqb_eq in H. congruence.
+  - destruct (header_items (c0 :: hs)) as [items|] eqn:E.
+    + intros NT H. destruct a as [x|]; [|discriminate].
+      pose proof (header_items_pos _ _ E) as Q.
+      destruct (best supported_content_types content_type_synonyms items) as [b|] eqn:B.
+      * destruct (best_is_top _ _ Q B) as (Hb & Tb).
+        remember (supported_items items) as sp eqn:S. destruct sp as [|s0 sup]; [destruct Hb|]. cbv iota in H.
+        apply existsb_exists in H as (t & Ht & G). apply andb_true_iff in G as [Ex Tt]. apply str_eqb_eq in Ex. subst x.
+        unfold is_top in Tb, Tt. rewrite forallb_forall in Tb, Tt.
+        rewrite (no_ties_unique _ t b NT Ht Hb (Tt _ Hb) (Tb _ Ht)). reflexivity.
+      * rewrite best_bestP in B. apply bestP_none in B. unfold supported_items in H. rewrite B in H.
+        apply str_eqb_eq in H. congruence.
+    + intros _ H. destruct a; [discriminate|reflexivity].
+  - intros _ H. destruct a as [x|]; [|discriminate]. apply str_eqb_eq in H. congruence.
+Qed.
+Print Assumptions negotiate_acceptable_spec.
+Print Assumptions negotiate_acceptable_unique.
